@@ -1,15 +1,30 @@
 #!/bin/bash
-# Applies a patch to /repo's working tree, runs the given checks (quick tier unless TIER is set),
-# and restores /repo no matter what. usage: tools/mutant.sh <patch.diff> C03 C09 ...
-# Prints one line per check: <patch> <id> rc=<exit code> and the VIOLATION lines.
+# Applies a patch to a scratch worktree of /repo (/tmp/mrepo) and runs the given checks against it
+# from a scratch copy of /verif (/tmp/vx, whose harness go.mod points at /tmp/mrepo), so that /repo
+# itself and the evidence under /verif are never touched and sweeps on /repo can run meanwhile.
+# usage: tools/mutant.sh <patch.diff> C03 C09 ...      (TIER=thorough for the thorough tier)
+# With MUTANT_INPLACE=1 the patch is applied to /repo itself (restored afterwards) and /verif/check is used.
+# Prints one line per check: <patch> <id> rc=<exit code> and the VIOLATION / INCONCLUSIVE lines.
 P=$(readlink -f "$1"); shift
-cd /repo || exit 2
-mkdir -p /verif/logs/mut-evidence
-if [ -n "$(git status --porcelain)" ]; then echo "/repo not clean"; exit 2; fi
-trap 'git -C /repo checkout -- . >/dev/null 2>&1' EXIT
+if [ -n "$MUTANT_INPLACE" ]; then
+  R=/repo; V=/verif
+  cd $R || exit 2
+  if [ -n "$(git status --porcelain)" ]; then echo "/repo not clean"; exit 2; fi
+  trap 'git -C /repo checkout -- . >/dev/null 2>&1' EXIT
+else
+  R=/tmp/mrepo; V=/tmp/vx
+  if [ ! -d $R ]; then git -C /repo worktree add -q --detach $R HEAD || exit 2; fi
+  git -C $R checkout -q --detach "$(git -C /repo rev-parse HEAD)" && git -C $R checkout -- . && git -C $R clean -fdq
+  mkdir -p $V
+  rsync -a --delete --exclude .git --exclude logs --exclude replays --exclude .bin --exclude evidence /verif/ $V/
+  sed -i "s#=> /repo/v2#=> $R/v2#; s#=> /repo\$#=> $R#" $V/harness/go.mod
+  trap 'git -C /tmp/mrepo checkout -- . >/dev/null 2>&1; git -C /tmp/mrepo clean -fdq' EXIT
+  cd $R || exit 2
+fi
 git apply "$P" || { echo "patch does not apply: $P"; exit 2; }
+mkdir -p $V/logs/mut-evidence
 for id in "$@"; do
-  out=$(cd /verif && VERIF_EVIDENCE_DIR=/verif/logs/mut-evidence ./check "$id" "${TIER:-quick}" 2>&1); rc=$?
-  echo "$(basename "$P") $id rc=$rc $(echo "$out" | grep -c '^VIOLATION') violation lines"
-  echo "$out" | grep -E '^(VIOLATION|INCONCLUSIVE|  detail)' | head -${LINES_SHOWN:-3} | cut -c1-300
+  out=$(cd $V && VERIF_EVIDENCE_DIR=$V/logs/mut-evidence ./check "$id" "${TIER:-quick}" 2>&1); rc=$?
+  echo "$(basename "$(dirname "$P")")/$(basename "$P") $id rc=$rc $(echo "$out" | grep -c '^VIOLATION') violation lines"
+  echo "$out" | grep -E '^(VIOLATION|INCONCLUSIVE|  detail)' | head -${LINES_SHOWN:-3} | cut -c1-330
 done
